@@ -794,7 +794,11 @@ def run(repo, rep):
     # ---------------------------------------------------------------- S8
     from ..codec_rules import check_wire
     check_wire(lx, rep, prefix='C06', only=('PDataTfPDU', 'PresentationDataValueItem'),
-               rule_map={'L1': 'S8', 'L2': 'S8', 'L3': 'S8', 'L5': 'S8'})
+               rule_map={'L1': 'S8', 'L2': 'S8', 'L3': 'S8', 'L5': 'S8', 'L6': 'S9'})
+
+    # ---------------------------------------------------------------- S9
+    rep.rule('C06.S9', 'building a P-DATA-TF PDU never fails for a legal fragment: no guard in the constructors / encoders of the PDU '
+             'and its PDV item rejects a context id up to 255 or a length its field can carry (same analysis as C01.O12)', 2)
 
     # ---------------------------------------------------------------- S7
     p7 = send_limit_problems(repo, hier)
